@@ -92,7 +92,7 @@ Definition construct_function (t : teal) (path : list nat) : res (func * list (n
                                                 | Some b => [mkBlock (b_idx b) (b_ins b) (b_next b) (filter (fun p => nat_mem p main_ids) (b_prev b))]
                                                 | None => [] end) main_ids in
           let t' := t in
-          let called := fold_right (fun c l => if smem c l then l else c :: l) []
+          let called := dedup_first
                           (flat_map (fun b => match b_ins b with
                                               | [] => []
                                               | l => match op_at (fs_prog st) (List.last l 0) with Some (ICallsub n) => [n] | _ => [] end
